@@ -36,7 +36,7 @@ WHAT = {"PT-stage-order": "the tool's commands did not go out in the order regis
 
 def build_tool():
     """Build feig_update from REPO's working tree into a target directory outside the repository."""
-    cmd = ["cargo", "build", "--offline", "-p", "zvt_cli", "--bin", "feig_update", "--manifest-path", os.path.join(vlib.REPO, "Cargo.toml"),
+    cmd = ["cargo", "build", "--offline", "-p", "zvt_cli", "--bins", "--manifest-path", os.path.join(vlib.REPO, "Cargo.toml"),
            "--target-dir", CLI_TARGET]
     e = dict(os.environ, CARGO_NET_OFFLINE="true")
     p = subprocess.run(cmd, stdout=subprocess.PIPE, stderr=subprocess.STDOUT, text=True, env=e)
@@ -145,19 +145,9 @@ def parse_stdout(text):
     return items, skip, finished
 
 
-def run_case(tool, case, wd, k):
-    d = os.path.join(wd, "run%d" % k)
-    shutil.rmtree(d, ignore_errors=True)
-    files = []
-    spec = spec_content(case["desired"])
-    todo = dict(FILES)
-    todo["app1/update.spec"] = (34, spec)
-    for path, (fid, content) in sorted(todo.items()):
-        p = os.path.join(d, path)
-        os.makedirs(os.path.dirname(p), exist_ok=True)
-        open(p, "wb").write(content)
-        files.append({"id": fid, "path": path, "size": len(content), "content": list(content)})
-    open(os.path.join(d, "README.txt"), "wb").write(b"not a recognised file")
+def run_process(argv, frames, wd, k):
+    """Run a tool against a terminal that queues `frames` on the connection and half-closes. argv(port) -> command line.
+    Returns (exit status, stdout, stderr, frames written, note)."""
     srv = socket.socket()
     srv.bind(("127.0.0.1", 0))
     srv.listen(1)
@@ -165,7 +155,7 @@ def run_case(tool, case, wd, k):
     port = srv.getsockname()[1]
     got = bytearray()
     note = [""]
-    script = b"".join(bytes(f["bytes"]) for f in case["frames"])
+    script = b"".join(bytes(f["bytes"]) for f in frames)
 
     def terminal():
         try:
@@ -182,10 +172,10 @@ def run_case(tool, case, wd, k):
                 if not b:
                     break
                 got.extend(b)
-        except (ConnectionResetError, BrokenPipeError):
-            pass                         # the tool exited with unread data: what it wrote before is already here
-        except socket.timeout:
-            note[0] = "terminal-timeout"
+        except (ConnectionResetError, BrokenPipeError, OSError) as e:
+            if isinstance(e, socket.timeout):
+                note[0] = "terminal-timeout"
+            # otherwise: the tool exited with unread data or before the script was out - what it wrote is taken from strace
         finally:
             c.close()
     t = threading.Thread(target=terminal)
@@ -193,8 +183,7 @@ def run_case(tool, case, wd, k):
     # what the tool writes is taken where it writes it - at the system call (strace), not at the far end of the connection: a process
     # that exits with unread data in its socket resets the connection, and what it had written last may never arrive
     st = os.path.join(wd, "strace%d.out" % k)
-    args = ["strace", "-f", "-e", "trace=connect,sendto,write,writev", "-xx", "-s", "300000", "-o", st,
-            tool, "--ip-address", "127.0.0.1:%d" % port, "--password", "123456"] + (["--force"] if case["force"] else []) + [d]
+    args = ["strace", "-f", "-e", "trace=connect,sendto,write,writev", "-xx", "-s", "300000", "-o", st] + argv(port)
     try:
         p = subprocess.run(args, stdout=subprocess.PIPE, stderr=subprocess.PIPE, timeout=30)
         rc, out, err = p.returncode, p.stdout.decode("utf-8", "replace"), p.stderr.decode("utf-8", "replace")
@@ -203,7 +192,6 @@ def run_case(tool, case, wd, k):
         note[0] = "hang"
     t.join(25)
     srv.close()
-    shutil.rmtree(d, ignore_errors=True)
     written = syscall_writes(st, port)
     if written is None:
         note[0] = note[0] or "strace-unreadable"
@@ -217,11 +205,31 @@ def run_case(tool, case, wd, k):
         note[0] = "partial-frame-written"
     if rc < 0 and not note[0]:
         note[0] = "signal%d" % -rc
+    return rc, out, err, wire, note[0]
+
+
+def run_case(tool, case, wd, k):
+    d = os.path.join(wd, "run%d" % k)
+    shutil.rmtree(d, ignore_errors=True)
+    files = []
+    spec = spec_content(case["desired"])
+    todo = dict(FILES)
+    todo["app1/update.spec"] = (34, spec)
+    for path, (fid, content) in sorted(todo.items()):
+        p = os.path.join(d, path)
+        os.makedirs(os.path.dirname(p), exist_ok=True)
+        open(p, "wb").write(content)
+        files.append({"id": fid, "path": path, "size": len(content), "content": list(content)})
+    open(os.path.join(d, "README.txt"), "wb").write(b"not a recognised file")
+    rc, out, err, wire, note = run_process(
+        lambda port: [tool, "--ip-address", "127.0.0.1:%d" % port, "--password", "123456"] + (["--force"] if case["force"] else []) + [d],
+        case["frames"], wd, k)
+    shutil.rmtree(d, ignore_errors=True)
     items, skip, finished = parse_stdout(out)
     n_stages = max([s for s in items if items[s]] + [len([w for w in wire if tuple(w[:2]) in ((6, 0), (15, 161), (6, 80), (8, 20))])])
     rec = {"force": case["force"], "desired": case["desired"], "frames": case["frames"], "files": files, "block": 32768, "announce": [],
            "wire": wire, "items": [items[s] for s in range(1, n_stages + 1)], "exit": rc, "skipline": skip, "finished": finished,
-           "note": note[0], "panic": ("panicked" in err)}
+           "note": note, "panic": ("panicked" in err)}
     return rec
 
 
@@ -306,5 +314,126 @@ def run(chk, pid, thorough):
             chk.violation("tool:%s" % bad[0], "update tool over TCP: %s" % "; ".join(WHAT.get(f, f) for f in bad), brief(rec))
         else:
             chk.drift("L5-tool", "feig_update: %s" % "; ".join(WHAT.get(f, "deviates from FeigUpdate!RunTool in " + f) for f in sorted(flags)), brief(rec))
+    shutil.rmtree(wd, ignore_errors=True)
+    return len(recs)
+
+
+# ---------------------------------------------------------------------------------------------- zvt_cli (thirteen subcommands)
+def digits(n):
+    return [int(c) for c in str(n)] if n else []
+
+
+def text(sx):
+    return list(sx.encode("cp437"))
+
+
+CLI_ARGS = {   # subcommand -> list of (command line options, the options as the specification sees them)
+    "status": [([], {})],
+    "factory_reset": [([], {})],
+    "registration": [([], {"currency_code": digits(978), "config_byte": digits(222)}),
+                     (["--currency-code", "826", "--config-byte", "0"], {"currency_code": digits(826), "config_byte": digits(0)})],
+    "set_terminal_id": [(["--terminal-id", "52500041"], {"terminal_id": digits(52500041)}), (["--terminal-id", "7"], {"terminal_id": digits(7)})],
+    "init": [([], {})],
+    "diagnosis": [(["line"], {"diagnosis": digits(1)}), (["ep2_configuration"], {"diagnosis": digits(5)}), (["3"], {"diagnosis": digits(3)})],
+    "print_system_diagnosis": [([], {})],
+    "end_of_day": [([], {})],
+    "read_card": [([], {"timeout": digits(15), "card_type": digits(16), "short_card_reading_control": digits(208), "dialog_control": digits(2),
+                        "allowed_cards": digits(7)}),
+                  (["--timeout", "0", "--card-type", "255", "--short-card-reading-control", "0", "--dialog-control", "128", "--allowed-cards", "1"],
+                   {"timeout": digits(0), "card_type": digits(255), "short_card_reading_control": digits(0), "dialog_control": digits(128),
+                    "allowed_cards": digits(1)})],
+    "authorization": [([], {"currency_code": digits(978), "amount": digits(5), "payment_type": digits(64), "track_2_data": [], "bmp_prefix": [],
+                            "bmp_data": []}),
+                      (["--amount", "999999999999", "--currency-code", "0", "--payment-type", "255", "--track-2-data", "67d123", "--bmp-prefix", "AC",
+                        "--bmp-data", "ref-1"],
+                       {"currency_code": digits(0), "amount": digits(999999999999), "payment_type": digits(255), "track_2_data": [[0x67, 0xd1, 0x23]],
+                        "bmp_prefix": [text("AC")], "bmp_data": [text("ref-1")]})],
+    "reservation": [([], {"currency_code": digits(978), "amount": digits(5), "payment_type": digits(64), "track_2_data": [], "bmp_prefix": [],
+                          "bmp_data": []}),
+                    (["--amount", "2500", "--bmp-prefix", "AC", "--bmp-data", "t"],
+                     {"currency_code": digits(978), "amount": digits(2500), "payment_type": digits(64), "track_2_data": [], "bmp_prefix": [text("AC")],
+                      "bmp_data": [text("t")]})],
+    "partial_reversal": [(["--receipt", "4711"], {"receipt": digits(4711), "currency_code": digits(978), "amount": digits(5), "payment_type": digits(64),
+                                                   "bmp_prefix": [], "bmp_data": []}),
+                         (["--receipt", "65535", "--amount", "0"], {"receipt": digits(65535), "currency_code": digits(978), "amount": digits(0),
+                                                                    "payment_type": digits(64), "bmp_prefix": [], "bmp_data": []})],
+    "change_host_config": [(["--ip", "10.0.0.254"], {"ip": digits(10 * 2 ** 24 + 254), "port": digits(30401), "configuration_byte": digits(1)}),
+                           (["--ip", "255.255.255.255", "--port", "0", "--configuration-byte", "255"],
+                            {"ip": digits(2 ** 32 - 1), "port": digits(0), "configuration_byte": digits(255)})],
+}
+CLI_WHAT = {"P05-foreign-write": "the tool wrote something that is neither its command nor an acknowledgement",
+            "P06-answered-beyond-failure": "more acknowledgements were written than the script holds interpretable replies up to the first final one",
+            "P05-reply-not-answered": "the tool reported success although a reply up to the final one was not acknowledged"}
+ALL_KEYS = sorted({k for v in CLI_ARGS.values() for _, a in v for k in a} | {"password"})
+
+
+def cli_model_cases(chk, depth):
+    r = vlib.tlc("cli/MC_ZvtCli.tla", workers=8, xmx="12g", env={"CLI_EMIT": "1", "CLI_DEPTH": depth}, timeout=3000)
+    vlib.tlc_must_pass(r, "MC_ZvtCli")
+    if r.violated:
+        raise vlib.ToolError("the specification of zvt_cli violates %s:\n%s" % (r.violated, r.out[-1500:]))
+    chk.add_tlc("MC_ZvtCli: 13 subcommands x every terminal script up to %d frames over the alphabet of the command (+ card data for read_card); a "
+                "handler bails only on the last item, success only at a final reply, C05/C06" % depth, r)
+    return cc.parse_cases(r.out)
+
+
+def run_cli_case(tool, case, wd, k):
+    opts, spec_args = CLI_ARGS[case["sub"]][k % len(CLI_ARGS[case["sub"]])]
+    rc, out, err, wire, note = run_process(
+        lambda port: [tool, "--ip", "127.0.0.1:%d" % port, "--password", "123456", case["sub"]] + opts, case["frames"], wd, k)
+    args = {key: [] for key in ALL_KEYS}
+    args.update(spec_args)
+    args["password"] = digits(123456)
+    return {"sub": case["sub"], "args": args, "opts": opts, "frames": case["frames"], "wire": wire, "exit": rc, "note": note}
+
+
+def run_cli(chk, pid, thorough):
+    """zvt_cli over TCP as run by the check of C05 / C06: the P05 / P06 flags are violations of that property, the rest is model drift."""
+    wd = vlib.workdir(pid + "-cli")
+    cases = cli_model_cases(chk, 3)
+    tool = os.path.join(os.path.dirname(build_tool()), "zvt_cli")
+    rnd = random.Random(chk.seed + 77)
+    # quick: a sample, stratified by subcommand and by how far the script lets the exchange get (nothing acknowledged / acknowledged and
+    # a first reply answered / two replies answered), so that the long exchanges are not drowned by the scripts that fail at once
+    budget = 12000 if thorough else 1800
+    groups = {}
+    for c in cases:
+        groups.setdefault((c["sub"], min(len(c["writes"]), 3)), []).append(c)
+    per = max(1, budget // len(groups))
+    picked = []
+    for key in sorted(groups):
+        g = groups[key]
+        rnd.shuffle(g)
+        picked += g[:per]
+    cases = picked
+    recs = vlib.parallel(lambda k: run_cli_case(tool, cases[k], wd, k), list(range(len(cases))), 12)
+    lines = [json.dumps(r) for r in recs]
+    shards = []
+    for k in range(0, len(lines), 1500):
+        p = os.path.join(wd, "cli.t%d.ndjson" % (k // 1500))
+        open(p, "w").write("\n".join(lines[k:k + 1500]) + "\n")
+        shards.append((k, p))
+
+    def one(sh):
+        k, p = sh
+        return k, p, vlib.tlc("cli/TraceCli.tla", workers=2, xmx="6g", env={"CLI_TRACE": p}, tag="cli%d" % k, timeout=3000)
+    prefix = "P05" if pid == "C05" else "P06"
+    for k, p, r in vlib.parallel(one, shards, 6):
+        if not r.ok:
+            raise vlib.ToolError("TraceCli failed on %s:\n%s" % (p, (r.error_text or r.out)[-2500:]))
+        chk.cov["states"] += r.distinct
+        chk.cov["transitions"] += r.generated
+        for m in FLAG_RE.finditer(r.out):
+            rec = recs[k + int(m.group(1)) - 1]
+            flags = set(json.loads(json.loads(m.group(2))))
+            b = {"sub": rec["sub"], "opts": rec["opts"], "script": [cc.hexs(f["bytes"]) + (" (truncated)" if f["trunc"] else "") for f in rec["frames"]],
+                 "wrote": [cc.hexs(w[:16]) for w in rec["wire"]], "exit": rec["exit"], "note": rec["note"]}
+            bad = sorted(f for f in flags if f.startswith(prefix) or f.startswith("abnormal"))
+            if bad:
+                chk.violation("cli:%s:%s" % (rec["sub"], bad[0]), "zvt_cli %s over TCP: %s" % (rec["sub"], "; ".join(CLI_WHAT.get(f, f) for f in bad)), b)
+            else:
+                chk.drift("L5-cli", "zvt_cli %s deviates from ZvtCli!RunCli in %s" % (rec["sub"], sorted(flags)), b)
+        os.remove(p)
+    chk.cov["cli_runs_over_tcp"] = len(recs)
     shutil.rmtree(wd, ignore_errors=True)
     return len(recs)
